@@ -112,6 +112,78 @@ def _run_task(task):
     return out
 
 
+# --------------------------------------------------------------------------- binding (A): scripted stage results
+STRUCTS = [["1", "1"], ["1", "1", "1"]]           # structure i of a script
+MAJORS = [[["1", "1"], ["1", "2"]], [["1", "1", "1"], ["1", "1", "2"]]]   # candidate j of structure i
+
+
+def _script_task(task):
+    """Run the REAL genotype() (and the real estimate_minor wrapper) on a small simulated toy sample while the three
+    stage oracles return the scripted results (spec/gen/PipelineGen.tla) as real solution objects."""
+    seed, scripts = task
+    import collections
+
+    from aldy.diplotype import estimate_diplotype
+    from aldy.solutions import CNSolution, MajorSolution, MinorSolution, SolvedAllele
+
+    rng = random.Random(seed)
+    out = []
+    with tempfile.TemporaryDirectory(prefix="c10s_", dir=tlc.scratch()) as d:
+        txt, _ = gen_reads.toy_yaml("+", "-", seed=3, pseudogene=False)
+        yml = os.path.join(d, "toys.yml")
+        with open(yml, "w") as f:
+            f.write(txt)
+        gene = gen_reads.load_gene(yml, "hg19")
+        smp = gen_reads.simulate_sample(gene, [("1", ()), ("1", ())], 100, 10, os.path.join(d, "s.bam"), rng, contig_len=20000, mode="tile")
+        for sid, sc in scripts:
+            gap = sc["g"] / pipeline.U
+
+            def est_cn(gene_, profile, coverage, solver, debug=None, sc=sc):
+                return [CNSolution(gene_, x / pipeline.U, list(STRUCTS[i])) for i, x in enumerate(sc["cn"])]
+
+            def est_major(gene_, coverage, cn_solution, solver, identifier=0, debug=None, sc=sc):
+                i = STRUCTS.index(sorted(cn_solution.solution.elements()))
+                return [MajorSolution(score=x / pipeline.U, solution=collections.Counter(SolvedAllele(gene_, major=a) for a in MAJORS[i][j]),
+                                      cn_solution=cn_solution, added=[]) for j, x in enumerate(sc["maj"][i])]
+
+            def solve_minor(gene_, coverage, major_sol, alleles_list, mutations, solver, max_solutions=1, sc=sc):
+                i = STRUCTS.index(sorted(major_sol.cn_solution.solution.elements()))
+                ms = sorted(sa.major for sa, n_ in major_sol.solution.items() for _ in range(n_))
+                j = MAJORS[i].index(ms)
+                x = sc["min"][i][j]
+                if x < 0:
+                    return []
+                sol = MinorSolution(score=x / pipeline.U, solution=[SolvedAllele(gene_, major=a, minor=sorted(gene_.alleles[a].minors)[0]) for a in ms],
+                                    major_solution=major_sol)
+                estimate_diplotype(gene_, sol)  # as the real solve_minor_model does for every solution it returns
+                return [sol]
+
+            r = pipeline.run_genotype(yml, smp["bam"], smp["profile_bam"], cn_region=smp["cn_region"], genome="hg19", gap=gap, max_minor_solutions=1,
+                                      stubs={"estimate_cn": est_cn, "estimate_major": est_major, "solve_minor_model": solve_minor})
+            tid = f"script/{sid}"
+            out.append({"tid": tid, "rows": pipeline.trace_rows(r, tid, gap), "meta": {
+                "script": sc, "error": r["error"], "error_type": r["error_type"],
+                "stages": [(e["k"], len(e.get("sols", [])), e.get("err", "")) for e in r["events"]],
+                "result": [(x["major_diplotype"], x["score"]) for x in (r["result"] or [])]}})
+    return out
+
+
+def scripts_from_spec(ctx, rng, n):
+    """The script universe is the product of the three factors PipelineGen emits; a seeded sample of n scripts."""
+    outp = os.path.join(tlc.scratch(), "pipeline_factors.ndjson")
+    ctx.mc("gen/PipelineGen", "gen/PipelineGen.cfg", workers=1, env={"OUT_FILE": outp}, label="PipelineGen(script universe)")
+    fac = {r["k"]: r["v"] for r in tlc.read_ndjson(outp)}
+    total = len(fac["gaps"]) * sum(len(fac["per"]) ** len(c) for c in fac["cns"])
+    scripts = []
+    for sid in range(n):
+        c = rng.choice(fac["cns"])
+        per = [rng.choice(fac["per"]) for _ in c]
+        if rng.random() < 0.5:  # bias towards scripts in which both structures have candidates with refinements
+            per = [rng.choice([p for p in fac["per"] if p["maj"] and max(p["min"]) >= 0]) for _ in c]
+        scripts.append((sid, {"g": rng.choice(fac["gaps"]), "cn": list(c), "maj": [list(p["maj"]) for p in per], "min": [list(p["min"]) for p in per]}))
+    return scripts, total
+
+
 def corrupt(rng, rows):
     c = json.loads(json.dumps(rows))
     rep = c[-1]
@@ -170,7 +242,15 @@ def run(ctx):
         tasks.append((rng.randrange(1 << 30), "toy" if i % 2 == 0 else "gendb", 6 if quick else 14))
     for i in range(2 if quick else 10):
         tasks.append((rng.randrange(1 << 30), "toylq", 5 if quick else 10))
-    runs = [r for out in par.pmap(_run_task, tasks, timeout=600 if quick else 1500,
+    # (A) spec -> code: scripted stage results of the Pipeline universe replayed through the real genotype()
+    scripts, total = scripts_from_spec(ctx, rng, 1400 if quick else 30000)
+    per = 100 if quick else 500
+    stasks = [(rng.randrange(1 << 30), scripts[i:i + per]) for i in range(0, len(scripts), per)]
+    sruns = [r for out in par.pmap(_script_task, stasks) for r in out]
+    ctx.parts["scripted_stage_results"] = {"universe": total, "replayed": len(sruns),
+                                           "reported_something": sum(1 for r in sruns if r["meta"]["result"]),
+                                           "ended_with_error": sum(1 for r in sruns if r["meta"]["error"])}
+    runs = sruns + [r for out in par.pmap(_run_task, tasks, timeout=600 if quick else 1500,
                                   default=lambda t: [{"tid": f"watchdog/{t[0]}", "skip": "task killed by the watchdog (backend did not terminate)"}])
             for r in out]
     if par.TIMED_OUT:
